@@ -43,7 +43,10 @@ CONSTANTS
   MaxEvict,      \* mempool.MaxReplacementEvictions
   MaxBlockTxs,   \* bound: transactions in a block mined on the tip
   MaxReorgTxs,   \* bound: transactions in the blocks of a new branch
-  Standalone     \* enable the free-standing Remove*/ProcessOrphans calls
+  Standalone,    \* enable the free-standing Remove*/ProcessOrphans calls
+  Script         \* <<>>: every interleaving; otherwise the only schedule explored, a sequence of
+                 \* <<kind, tx>> with kind 1 = ProcessTx(tx, TRUE), 2 = CheckAccept(tx), 3 = RemoveTx(tx, TRUE)
+                 \* (boundary scenarios with a hundred transactions)
 
 VARIABLES
   chain,    \* active chain above the base: sequence of slots
@@ -55,9 +58,10 @@ VARIABLES
   orph,     \* TxPool.orphans (set of txs)
   obp,      \* TxPool.orphansByPrev: function outpoint -> non-empty set of orphans
   penny,    \* TxPool.pennyTotal (bytes, no decay)
-  stale     \* pooled txs left behind by a disconnect with an input that exists nowhere (known defect)
+  stale,    \* pooled txs left behind by a disconnect with an input that exists nowhere (known defect)
+  step      \* position in Script (stays 0 without a script)
 
-vars == <<chain, content, used, cutxo, pool, sb, orph, obp, penny, stale>>
+vars == <<chain, content, used, cutxo, pool, sb, orph, obp, penny, stale, step>>
 
 Txs   == 1..N
 Slots == 1..Len(SlotParent)
@@ -326,24 +330,33 @@ Unavailable(ps, ch, cont) ==
 -----------------------------------------------------------------------------
 \* result codes of the submission calls in a state
 ExpOf(ps, cv) ==
-  LET m1 == [t \in Txs |-> Check(t, ps, cv, TRUE, TRUE, TRUE).res]
-      m0 == [t \in Txs |-> IF TxFee[t] >= MinFee(TxVSize[t]) THEN m1[t]
-                                                           ELSE Check(t, ps, cv, FALSE, FALSE, TRUE).res]
+  LET want(t) == Script = <<>> \/ (step < Len(Script) /\ Script[step + 1][2] = t)   \* with a script only the next call matters
+      c1 == [t \in Txs |-> IF want(t) THEN Check(t, ps, cv, TRUE, TRUE, TRUE) ELSE [res |-> 0, penny |-> 0, evict |-> {}]]
+      m1 == [t \in Txs |-> c1[t].res]
+      m0 == [t \in Txs |-> IF ~want(t) THEN 0
+                            ELSE IF TxFee[t] >= MinFee(TxVSize[t]) THEN m1[t]
+                            ELSE Check(t, ps, cv, FALSE, FALSE, TRUE).res]
       pt(t, ao) == IF m1[t] # RMiss THEN m1[t]
                    ELSE IF ~ao THEN RNoOrphans ELSE IF TxSize[t] > MaxOrphanSize THEN ROrphanBig ELSE RMiss
   IN [ pt1 |-> [t \in Txs |-> pt(t, TRUE)],   \* ProcessTransaction(tx, allowOrphan=true, rateLimit=true)
        pt0 |-> [t \in Txs |-> pt(t, FALSE)],  \* ProcessTransaction(tx, false, true)
        ma1 |-> m1,    \* MaybeAcceptTransaction(tx, true, true) and CheckMempoolAcceptance(tx)
-       ma0 |-> m0 ]   \* MaybeAcceptTransaction(tx, false, false)
+       ma0 |-> m0,    \* MaybeAcceptTransaction(tx, false, false)
+       ev  |-> [t \in Txs |-> c1[t].evict] ]   \* what an accepted submission evicts (MempoolAcceptResult.Conflicts)
 
 CVnow == [h |-> Len(chain), utxo |-> cutxo]
 
 Init ==
   /\ chain = <<>> /\ content = [b \in Slots |-> <<>>] /\ used = {}
   /\ cutxo = Utxo(chain, content)
-  /\ pool = <<>> /\ sb = <<>> /\ orph = {} /\ obp = <<>> /\ penny = 0 /\ stale = {}
+  /\ pool = <<>> /\ sb = <<>> /\ orph = {} /\ obp = <<>> /\ penny = 0 /\ stale = {} /\ step = 0
+
+\* the schedule: without a script everything is enabled
+Sched(kind, t) == Script = <<>> \/ (step < Len(Script) /\ Script[step + 1] = <<kind, t>>)
+StepNext == step' = IF Script = <<>> THEN 0 ELSE step + 1
 
 SetPS(ps) ==
+  /\ StepNext
   /\ pool' = ps.pool /\ sb' = ps.sb /\ orph' = ps.orph /\ obp' = ps.obp /\ penny' = ps.penny
   /\ stale' = IF stale = {} THEN {} ELSE stale \cap Unavailable(ps, chain', content')
 
@@ -353,6 +366,7 @@ KeepChain == UNCHANGED <<chain, content, used, cutxo>>
 ProcessTx(t, allowOrphan) ==
   LET cv == CVnow
       m  == MaybeAccept(t, PS, cv, TRUE, TRUE, TRUE) IN
+  /\ Sched(1, t) /\ (Script # <<>> => allowOrphan)
   /\ KeepChain
   /\ \/ /\ m.r.res = RAcc
         /\ \E o \in ProcessOrphansOutcomes(t, m.ps, cv) : SetPS(o.ps)
@@ -366,33 +380,33 @@ ProcessTx(t, allowOrphan) ==
 \* TxPool.MaybeAcceptTransaction(tx, isNew, rateLimit)
 MaybeAcceptTx(t, newAndLimited) ==
   LET m == MaybeAccept(t, PS, CVnow, newAndLimited, newAndLimited, TRUE) IN
-  /\ KeepChain /\ SetPS(m.ps)
+  /\ Script = <<>> /\ KeepChain /\ SetPS(m.ps)
 
 \* TxPool.CheckMempoolAcceptance(tx): a dry run.  The code runs
 \* checkMempoolAcceptance(tx, true, true, true) under the read lock, which
 \* nevertheless updates the rate limiter.
 CheckAccept(t) ==
   LET c == Check(t, PS, CVnow, TRUE, TRUE, TRUE) IN
-  /\ KeepChain /\ SetPS([PS EXCEPT !.penny = c.penny])
+  /\ Sched(2, t) /\ KeepChain /\ SetPS([PS EXCEPT !.penny = c.penny])
 
 \* TxPool.RemoveTransaction(tx, removeRedeemers); without redeemers only when
 \* nothing pooled depends on it (the way the callers use it)
 RemoveTx(t, redeemers) ==
-  /\ Standalone
+  /\ Standalone /\ Sched(3, t) /\ (Script # <<>> => redeemers)
   /\ redeemers \/ \A o \in Outs(t) : Lookup(sb, o) = 0
   /\ KeepChain /\ SetPS(RemoveTransaction(PS, t, redeemers))
 
-RemoveDoubleSpends(t) == Standalone /\ KeepChain /\ SetPS(RemoveDoubleSpendsOf(PS, t))
+RemoveDoubleSpends(t) == Standalone /\ Script = <<>> /\ KeepChain /\ SetPS(RemoveDoubleSpendsOf(PS, t))
 
-RemoveOrphanTx(t) == Standalone /\ t \in orph /\ KeepChain /\ SetPS(RemoveOrphan(PS, t, FALSE))
+RemoveOrphanTx(t) == Standalone /\ Script = <<>> /\ t \in orph /\ KeepChain /\ SetPS(RemoveOrphan(PS, t, FALSE))
 
 ProcessOrphansOf(t) ==
-  /\ Standalone /\ KeepChain
+  /\ Standalone /\ Script = <<>> /\ KeepChain
   /\ \E o \in ProcessOrphansOutcomes(t, PS, CVnow) : SetPS(o.ps)
 
 \* a block with body S is mined on the tip: BlockChain.ProcessBlock -> NTBlockConnected
 Mine(b, S) ==
-  /\ b \notin used /\ SlotParent[b] = (IF chain = <<>> THEN 0 ELSE chain[Len(chain)])
+  /\ Script = <<>> /\ b \notin used /\ SlotParent[b] = (IF chain = <<>> THEN 0 ELSE chain[Len(chain)])
   /\ ValidBody(S, chain, content)
   /\ chain' = Append(chain, b)
   /\ content' = [content EXCEPT ![b] = SetToSeq(S)]
@@ -418,6 +432,7 @@ Reorg(a) ==
       bods == [i \in 1..Len(nc) |-> IF i <= k THEN Range(content[nc[i]]) ELSE body[i - k]]
       cont == ValidBodies(nc, k, bods, content)
   IN
+  /\ Script = <<>>
   /\ Len(nc) = Len(chain) + 1 /\ k < Len(chain)
   /\ \A i \in 1..Len(nc) : SlotParent[nc[i]] = (IF i = 1 THEN 0 ELSE nc[i - 1])
   /\ \A i \in (k + 1)..Len(nc) : nc[i] \notin used
@@ -431,13 +446,15 @@ Reorg(a) ==
      IN \E ps \in ConnectUp(nc, k, {pd}, cont) :
           /\ pool' = ps.pool /\ sb' = ps.sb /\ orph' = ps.orph /\ obp' = ps.obp /\ penny' = ps.penny
           /\ stale' = (stale \cup lost) \cap Unavailable(ps, nc, cont)
+          /\ StepNext
 
 Paths == {s \in UNION {[1..n -> Slots] : n \in 1..Len(SlotParent)} :
             \A i \in 1..Len(s) : SlotParent[s[i]] = (IF i = 1 THEN 0 ELSE s[i - 1])}
 Bodies(n) == [1..n -> {{}} \cup {{t} : t \in Txs}]
 
 \* constant argument spaces of the block actions
-BlockBodies == {S \in SUBSET Txs : Cardinality(S) <= MaxBlockTxs}
+BlockBodies == {{}} \cup (IF MaxBlockTxs >= 1 THEN {{t} : t \in Txs} ELSE {})
+                    \cup (IF MaxBlockTxs >= 2 THEN {{t, u} : t, u \in Txs} ELSE {})
 ReorgArgs ==
   {a \in Paths \X UNION {Bodies(n) : n \in 1..Len(SlotParent)} :
       /\ Len(a[2]) <= Len(a[1])
@@ -514,8 +531,9 @@ RejectedUnchanged ==
 
 \* Not a property: prints, once per distinct state, the predicted result codes
 \* keyed by the state itself (listed as INVARIANT in the replay configurations).
-EmitExp == PrintT(<<"@EXP", [chain |-> chain, content |-> content, pool |-> pool, sb |-> sb, orph |-> orph,
-                             obp |-> obp, penny |-> penny, stale |-> stale], ExpOf(PS, CVnow)>>)
+\* (ToString keeps the record on one line; TLC's pretty printer is slow on large values)
+EmitExp == PrintT(ToString(<<424242, [chain |-> chain, content |-> content, pool |-> pool, sb |-> sb, orph |-> orph,
+                             obp |-> obp, penny |-> penny, stale |-> stale, step |-> step], ExpOf(PS, CVnow)>>))
 
 \* NOT satisfied by the code (and by this model of it): a dry run should not
 \* touch the rate limiter either.  Checked only by MCDryRun.cfg to document it.
